@@ -161,7 +161,8 @@ def edge_configs():
     """mapping files at the edges of what the loader accepts: unknown / unregistered renderers, unknown fields and keys,
     a custom type the loader cannot map (with and without a mapping that uses it), Go names in the field list, virtual
     fields, renderer keys by Go name, empty renames, two custom fields with one index, no field list, a renderer for
-    a custom field that is not listed, a field listed twice, index 0, one name declared as array and as scalar.
+    a custom field that is not listed, a field listed twice, index 0, one name declared as array and as scalar, custom fields named like columns of
+    the message struct with the other array flag.
     The loader must accept or reject each as the model does, and accepted ones must behave like it."""
     C = [('cust0', 1001, 'varint', False)]
     return {
@@ -185,6 +186,9 @@ def edge_configs():
         'render-custom-unlisted': small_cfg(['bytes'], C, render={'cust0': 'ip'}, nfmaps=[(1, 'cust0')]),
         'field-twice': small_cfg(['bytes', 'bytes', 'cust0', 'cust0'], C, nfmaps=[(1, 'cust0')]),
         'index-zero': small_cfg(['bytes', 'z'], [('z', 0, 'varint', False)], nfmaps=[(1, 'z')]),
+        'custom-named-like-a-column-array': small_cfg(['Bytes', 'packets'], [('Bytes', 1001, 'varint', True)], nfmaps=[(2, 'Bytes')]),
+        'custom-named-like-a-list-column-scalar': small_cfg(['AsPath', 'MplsLabel', 'packets'], [('AsPath', 1001, 'varint', False), ('MplsLabel', 1002, 'varint', False)], nfmaps=[(2, 'AsPath')]),
+        'custom-named-like-a-bytes-column-array': small_cfg(['SrcAddr', 'packets'], [('SrcAddr', 1001, 'varint', True)], nfmaps=[(2, 'SrcAddr')]),
         'array-scalar-same-name': small_cfg(['x'], [('x', 1001, 'varint', True), ('x', 1002, 'varint', False)], nfmaps=[(1, 'x')]),
     }
 
